@@ -518,7 +518,10 @@ func r09_6(c *Ctx, rule string) {
 		a0 := call.Common().Args[0]
 		ok := c.isCallValueTo(a0, "path/filepath.Join") &&
 			c.DerivesFrom(a0, func(v ssa.Value) bool { return isFieldLoad(v, "fsutil.fs.root") }, 3) &&
-			c.DerivesFrom(a0, func(v ssa.Value) bool { p, isP := v.(*ssa.Parameter); return isP && types.TypeString(p.Type(), nil) == "string" }, 3)
+			c.DerivesFrom(a0, func(v ssa.Value) bool {
+				p, isP := v.(*ssa.Parameter)
+				return isP && types.TypeString(p.Type(), nil) == "string"
+			}, 3)
 		c.R.Check(ok, rule, c.siteName(call)+"/root-target", c.pos(call), "walks Join(fs.root, target)", "filepath.WalkDir is not applied to Join(fs.root, target)")
 		c.ObErrChecked(rule+"/checked", call)
 	}
